@@ -41,6 +41,16 @@ def run(ck):
                                                "src.alignment.alignment_position_scorer", "src.alignment.aligner",
                                                "src.alignment.segments_factory"})
     ck.floor("C04 role bindings judged", n, 40)
+    # what is scored is what is reported: every label of the window is scored exactly once (as a pair or as unpaired), and
+    # what conflict resolution trims from one segment is not scored again in its neighbour
+    from ..report import RuleView
+    from . import c12
+    from .c01 import pairwise_pass
+    ck.clause("C04.6", "every label in the window is scored once: unpaired = complement (by label number) of the kept pairs (as C12.3)")
+    c12.run(RuleView(ck, {"C12.3": "C04.6"}))
+    ck.clause("C04.7", "overlap labels are scored in one segment only: conflicts are resolved between every consecutive chain "
+                       "pair and the trimmed results written back in place (as C01.3 / C15.2)")
+    pairwise_pass(ck, "C04.7")
 
 
 # ------------------------------------------------------------------------------------------------------------ C04.1
